@@ -741,6 +741,12 @@ let nil() : L = t : lin 1 <- new close self; self.nil<t>
 let cons(l : L) : L = h : lin 1 <- new close self; p : lin 1 * L <- new (send self<h, l>); self.cons<p>
 let len(l : L) : lin 1 = case l ( nil<u> => wait u; close self | cons<p> => <h, t> <- recv p; wait h; print one; len(t) )
 prc[a] : lin 1 = e <- new nil(); l <- new cons(e); len(l)`},
+	{"v6", "a type that recurs in both operands of a product", `type tree = +{leaf : 1, node : tree * tree}
+prc[a] : 1 = close self`},
+	{"v7", "a type that is a product of itself", `type A = A * A
+prc[a] : 1 = close self`},
+	{"v8", "a type that recurs in both operands of a function type under a choice", `type t = &{apply : t -* t, get : 1}
+prc[a] : 1 = close self`},
 }
 
 // ZZMenuVerdicts: the typechecker's verdict on every program of both menus (no execution): the
